@@ -1,7 +1,7 @@
 SPECIFICATION Spec
 CONSTANTS
   OffsMod = 65536
-  Codes <- CodesRep
+  Codes <- CodesRep0
   Kinds = {"req", "rpl", "near"}
   Starts = {0, 3}
   CutModes = {0, 1}
